@@ -222,7 +222,19 @@ C03Trailers(z) ==
             frame |-> f, data |-> <<>>, tag |-> "all"] : f \in TrailerFrames(0)}
           ELSE {[op |-> "trailer", entry |-> "ParseRTUResponseWithCRC",
                  frame |-> RTUADU(1, RespPDU(Resp(3, 1, 0, 0, <<174, 65, 86, 82>>, <<>>, 0, <<>>))), data |-> <<>>, tag |-> "all"]})
-C03Cases(z) == C03Msgs(0) \cup C03Trailers(0)
+\* "every RTU frame the library emits ends with that CRC": RTU responses of every function (every byte count the
+\* format can carry, 1..255), RTU requests and exception frames are parsed and emitted again
+C03EmitResps(z) ==
+    {Resp(fc, 17, 0, 0, Pat("ramp", n), <<>>, 0, <<>>) : fc \in {1, 2}, n \in (IF Thorough THEN 1..255 ELSE {1, 2, 125, 250, 251, 252, 253, 254, 255})}
+    \cup {Resp(fc, 17, 0, 0, Pat("ramp", n), <<>>, 0, <<>>) : fc \in {3, 4, 23}, n \in (IF Thorough THEN {2 * k : k \in 1..127} ELSE {2, 4, 124, 250, 252, 254})}
+    \cup {Resp(5, 17, 3, CoilOn, <<>>, <<>>, 0, <<>>), Resp(6, 17, 3, 0, <<18, 52>>, <<>>, 0, <<>>), Resp(15, 17, 3, 9, <<>>, <<>>, 0, <<>>),
+          Resp(16, 17, 3, 2, <<>>, <<>>, 0, <<>>)}
+    \cup {Resp(17, 17, 0, 0, <<>>, Pat("ramp", il), 255, Pat("hash", xl)) : il \in {1, 2, 100, 253, 255}, xl \in {0, 1, 100}}
+C03Emit(z) ==
+    UNION {{PR(e, "rtu", RespADU("rtu", 0, r), "normal") : e \in RespEntries("rtu", r.fc)} : r \in C03EmitResps(0)}
+    \cup UNION {{PQ(e, "rtu", ReqADU("rtu", 0, r), "legal") : e \in ReqEntries("rtu", r.fc)} : r \in {x \in ReqSamples(0) : LegalReq(x) /\ x.unit = 1 /\ ~(x.fc \in {1, 2} /\ x.qty > 125)}}   \* (not the requests of known finding C09-F1)
+    \cup UNION {{PR(e, "rtu", ExcADU("rtu", 0, u, f, code), "exception") : e \in DispEntries("rtu")} : u \in {1, 255}, f \in {1, 3, 16, 23, 100}, code \in {1, 2, 11, 255}}
+C03Cases(z) == C03Msgs(0) \cup C03Trailers(0) \cup C03Emit(0)
 C03Self(k) == k.op = "crc" => CRC(k.msg) = CRCSlow(k.msg)
 
 ----------------------------------------------------------------------------
